@@ -1,13 +1,14 @@
 //! C02 / C17: signalo_filters::median::Median<f64, N> on small integers (exact in f64) and NaN.
 use crate::util::*;
+fn super_all(a: &[String], l: usize) -> Vec<Vec<String>> { crate::util::all_seqs(a, l) }
 use signalo_filters::median::Median;
 use signalo_traits::Filter;
 
 pub const HEADER: &str = "From Coq Require Import ZArith.\nFrom Signalo Require Import Base.Report Check.C02.\nOpen Scope Z_scope.";
 pub const HEADER17: &str = "From Coq Require Import ZArith.\nFrom Signalo Require Import Base.Report Check.C02 Check.C17.\nOpen Scope Z_scope.";
 
-fn tok(v: &str) -> f64 { if v == "nan" { f64::NAN } else { v.parse::<i64>().unwrap() as f64 } }
-fn show(x: f64) -> String { if x.is_nan() { "None".into() } else { format!("(Some {})", cz(x as i64)) } }
+fn tok(v: &str) -> f64 { match v { "nan" => f64::NAN, "inf" => f64::INFINITY, "-inf" => f64::NEG_INFINITY, "-0" => -0.0, _ => v.parse::<i64>().unwrap() as f64 } }
+fn show(x: f64) -> String { if x.is_nan() { "None".into() } else if x.is_infinite() { format!("(Some {})", cz(if x > 0.0 { 1_000_000_000_000 } else { -1_000_000_000_000 })) } else { format!("(Some {})", cz(x as i64)) } }
 fn oshow(x: Option<f64>) -> String { match x { Some(v) => format!("(Some {})", show(v)), None => "None".into() } }
 
 pub fn generate(tier: &str, rng: &mut Rng) -> Vec<Spec> {
@@ -24,6 +25,21 @@ pub fn generate(tier: &str, rng: &mut Rng) -> Vec<Spec> {
     for n in 1..=6 { for xs in crate::util::all_seqs(&abcd, len4) { v.push(mk(n, &xs)); } }
     for n in 1..=5 { for xs in crate::util::all_seqs(&nan, lennan) { v.push(mk(n, &xs)); } }
     for n in 1..=4 { for l in 0..3 { for xs in crate::util::all_seqs(&nan, l) { v.push(mk(n, &xs)); } } }
+    // infinities and negative zero (ordered like very large / zero values), wide windows, very long histories
+    let special: Vec<String> = ["0", "-0", "inf", "-inf", "1"].iter().map(|s| s.to_string()).collect();
+    for n in 1..=4 { for xs in super_all(&special, if thorough { 6 } else { 5 }) { v.push(mk(n, &xs)); } }
+    for i in 0..(if thorough { 60 } else { 14 }) {
+        let n = [12usize, 16, 32, 5, 8, 3, 7][i % 7]; let len = if i % 7 >= 3 { rng.range(600, if thorough { 4000 } else { 1500 }) } else { rng.range(40, 200) } as usize;
+        let mut cur = 0i64; let xs: Vec<String> = (0..len).map(|_| { match rng.below(6) { 0 => {} 1 => cur += 1, 2 => cur -= 1, 3 => cur = rng.range(-1000000, 1000000), _ => cur = rng.range(-6, 6) } cur.to_string() }).collect();
+        v.push(mk(n, &xs));
+    }
+    // wide windows (also not powers of two), more than two revolutions, many ties
+    for (i, n) in [100usize, 129, 200, 300].iter().enumerate() { for j in 0..(if thorough { 4 } else { 1 }) {
+        let len = 2 * n + 30 + i + j; let al = 3 + j as i64;
+        let xs: Vec<String> = (0..len).map(|k| if k % 11 == 0 { rng.range(-500, 500).to_string() } else { rng.range(0, al).to_string() }).collect();
+        v.push(mk(*n, &xs)); } }
+    // sample types with a niche (Option<char>: the all-zero bit pattern is Some('\0'))
+    for n in 1..=4 { for xs in super_all(&abc, if thorough { 6 } else { 4 }) { v.push(mk(n, &xs).with("ty", "char")); } }
     // random long histories: small alphabets (ties), monotone runs, outliers, some NaN
     let nrand = if thorough { 5000 } else { 600 };
     let widths: &[usize] = if thorough { &[1, 2, 3, 4, 5, 6, 7, 8, 9, 10, 11, 12, 13, 16] } else { &[3, 4, 5, 6, 7, 8, 9] };
@@ -52,10 +68,21 @@ fn run<const N: usize>(xs: &[f64], stats: &mut Stats) -> Outcome {
     Outcome::Case(format!("mk {}%nat {} {} {} [{}]", N, clist(xs, |x| show(*x)), clist(&ys, |x| show(*x)), cbool(panic), accs.join(";")))
 }
 
+fn run_char<const N: usize>(xs: &[char], stats: &mut Stats) -> Outcome {
+    let sh = |c: char| format!("(Some {})", (c as i64) - ('a' as i64));
+    let osh = |o: Option<char>| match o { Some(c) => format!("(Some {})", sh(c)), None => "None".to_string() };
+    let mut f: Median<char, N> = Median::default();
+    let acc = |f: &Median<char, N>| format!("({}, {}, {})", copt(&catch(|| f.min()).ok(), |o| osh(*o)), copt(&catch(|| f.median()).ok(), |o| osh(*o)), copt(&catch(|| f.max()).ok(), |o| osh(*o)));
+    let mut ys = vec![]; let mut accs = vec![acc(&f)]; let mut panic = false;
+    for x in xs { match catch(|| f.filter(*x)) { Ok(y) => { ys.push(y); accs.push(acc(&f)); } Err(_) => { panic = true; stats.panics += 1; break } } }
+    Outcome::Case(format!("mk {}%nat {} {} {} [{}]", N, clist(xs, |x| sh(*x)), clist(&ys, |x| sh(*x)), cbool(panic), accs.join(";")))
+}
+
 pub fn exec(s: &Spec, stats: &mut Stats) -> Outcome {
     let n = s.usize("N");
     let xs: Vec<f64> = s.strs("xs").iter().map(|t| tok(t)).collect();
     stats.bump(format!("N:{}", n)); stats.bump(format!("len:{}", xs.len() / 10 * 10));
     if xs.iter().any(|x| x.is_nan()) { stats.bump("with-NaN"); }
-    crate::dispatch_n!(n, run, (&xs, stats); 1 2 3 4 5 6 7 8 9 10 11 12 13 16)
+    if s.has("ty") && s.get("ty") == "char" { stats.bump("ty:char"); let cs: Vec<char> = xs.iter().map(|x| (b'a' + *x as u8) as char).collect(); return crate::dispatch_n!(n, run_char, (&cs, stats); 1 2 3 4); }
+    crate::dispatch_n!(n, run, (&xs, stats); 1 2 3 4 5 6 7 8 9 10 11 12 13 16 32 100 129 200 300)
 }
